@@ -1,10 +1,15 @@
 #include "common.h"
+#include <unistd.h>
+FILE* uv::out = NULL;
 static uv::Cmd cmds[] = {
 	{"namematch", cmd_namematch},
+	{"trace", cmd_trace},
 	{0, 0}
 };
 int main(int argc, char** argv) {
 	if (argc < 2) { fprintf(stderr, "usage: uvharness <cmd> [args]\n"); return 2; }
+	uv::out = fdopen(dup(1), "w");
+	dup2(2, 1);
 	for (uv::Cmd* c = cmds; c->name; c++)
 		if (!strcmp(c->name, argv[1])) return c->fn(argc - 1, argv + 1);
 	fprintf(stderr, "unknown command %s\n", argv[1]);
